@@ -1,8 +1,87 @@
-(* The include traversal of Model/Loader.v for ALL file systems: it never runs out of fuel (every
-   recursive call marks a file of the file system that was not marked before), and everything it
-   puts into the resolved order is reachable through include directives. *)
+(* The include traversal of Model/Loader.v for ALL file systems and all coherent caches: the result
+   does not depend on the cache, the traversal never runs out of fuel (every recursive call marks a
+   file of the file system that was not marked before), and everything it puts into the resolved
+   order is reachable through include directives. *)
 From HL Require Import Lib.Bytes Model.Loader.
 Open Scope N_scope.
+
+(* every cache entry is the file as the file system holds it now, and passed the size limit *)
+Definition coherent (fs : fsys) (L : limits) (c : list (N * file)) : Prop :=
+  forall q cf, flookup q c = Some cf -> flookup q fs = Some cf /\ (max_size L <? f_size cf) = false.
+
+Lemma coherent_nil fs L : coherent fs L []. Proof. intros q cf H. discriminate H. Qed.
+
+Lemma coherent_cons fs L c q f : coherent fs L c -> flookup q fs = Some f -> (max_size L <? f_size f) = false ->
+  coherent fs L ((q, f) :: c).
+Proof.
+  intros C F S k cf H. cbn [flookup] in H. destruct (k =? q) eqn:E.
+  - apply N.eqb_eq in E. subst k. inversion H; subst. auto.
+  - apply C. exact H.
+Qed.
+
+Ltac use_ih IHi :=
+  match goal with
+  | HG : ?GO ?items ?res ?errs (mkLS ?v ?k1) ?h1 ?seen = Some ?o |- exists o2, ?GO ?items ?res ?errs (mkLS ?v ?k2) ?h2 ?seen = Some o2 /\ _ =>
+      apply (IHi res errs v k1 k2 h1 h2 seen o); [| |exact HG]; first [assumption | apply coherent_cons; assumption]
+  end.
+
+Definition agree (o1 o2 : lout) : Prop :=
+  o_res o1 = o_res o2 /\ o_errs o1 = o_errs o2 /\ o_seen o1 = o_seen o2 /\ visited (o_st o1) = visited (o_st o2).
+
+(* the result of a load does not depend on which coherent cache it starts with *)
+Lemma load_wc_cache_indep fs L : forall fuel p dirs v c1 c2 o1,
+  coherent fs L c1 -> coherent fs L c2 ->
+  load_wc fuel fs L p dirs (mkLS v c1) = Some o1 ->
+  exists o2, load_wc fuel fs L p dirs (mkLS v c2) = Some o2 /\ agree o1 o2 /\
+             coherent fs L (cache (o_st o1)) /\ coherent fs L (cache (o_st o2)).
+Proof.
+  induction fuel as [|fuel IH]; intros p dirs v c1 c2 o1 C1 C2 H; [discriminate|].
+  cbn [load_wc] in *. cbn [visited cache] in *.
+  destruct (max_depth L <=? N.of_nat (length v)).
+  { inversion H; subst. eexists. split; [reflexivity|]. unfold agree. cbn [o_res o_errs o_seen o_st visited cache]. split; [repeat split; reflexivity|split; assumption]. }
+  match type of H with context [?g (dir_items fs dirs) (mkRes [] []) [] ?s [] []] => set (GO := g) in * end.
+  assert (G : forall items res errs v c1 c2 h1 h2 seen o1, coherent fs L c1 -> coherent fs L c2 ->
+              GO items res errs (mkLS v c1) h1 seen = Some o1 ->
+              exists o2, GO items res errs (mkLS v c2) h2 seen = Some o2 /\ agree o1 o2 /\
+                         coherent fs L (cache (o_st o1)) /\ coherent fs L (cache (o_st o2))).
+  { clear H o1 C1 C2 c1 c2 v. induction items as [|[line oq] rest IHi]; intros res errs v c1 c2 h1 h2 seen o1 C1 C2 HG.
+    - inversion HG; subst. eexists. split; [reflexivity|]. unfold agree. cbn [o_res o_errs o_seen o_st visited cache]. split; [repeat split; reflexivity|split; assumption].
+    - unfold GO in HG |- *. cbn beta iota in HG |- *. fold GO in HG |- *. cbn [visited cache] in *.
+      destruct oq as [q|]; [|use_ih IHi].
+      destruct (memN q v); [use_ih IHi|].
+      (* the file both runs use for q, and the sub-load on it *)
+      assert (SUB : forall f sub1, load_wc fuel fs L q (f_dirs f) (mkLS v c1) = Some sub1 ->
+                exists sub2, load_wc fuel fs L q (f_dirs f) (mkLS v c2) = Some sub2 /\ agree sub1 sub2 /\
+                             coherent fs L (cache (o_st sub1)) /\ coherent fs L (cache (o_st sub2)))
+        by (intros f sub1 Hs; exact (IH q (f_dirs f) v c1 c2 sub1 C1 C2 Hs)).
+      destruct (flookup q c1) as [cf1|] eqn:F1; destruct (flookup q c2) as [cf2|] eqn:F2.
+      + (* both hit *)
+        destruct (C1 _ _ F1) as [A1 _]. destruct (C2 _ _ F2) as [A2 _]. assert (cf2 = cf1) by congruence. subst cf2.
+        destruct (load_wc fuel fs L q (f_dirs cf1) (mkLS v c1)) as [sub1|] eqn:E1; [|discriminate].
+        destruct (SUB cf1 sub1 E1) as (sub2 & E2 & (R1 & R2 & R3 & R4) & K1 & K2). rewrite E2. rewrite <- R1, <- R2, <- R3.
+        destruct (o_st sub1) as [v1 k1] eqn:S1; destruct (o_st sub2) as [v2 k2] eqn:S2; cbn [visited cache] in *. subst v2.
+        destruct (o_res sub1); use_ih IHi.
+      + (* run 1 hits, run 2 reads the file *)
+        destruct (C1 _ _ F1) as [A1 Z1]. rewrite A1, Z1.
+        destruct (load_wc fuel fs L q (f_dirs cf1) (mkLS v c1)) as [sub1|] eqn:E1; [|discriminate].
+        destruct (SUB cf1 sub1 E1) as (sub2 & E2 & (R1 & R2 & R3 & R4) & K1 & K2). rewrite E2. rewrite <- R1, <- R2, <- R3.
+        destruct (o_st sub1) as [v1 k1] eqn:S1; destruct (o_st sub2) as [v2 k2] eqn:S2; cbn [visited cache] in *. subst v2.
+        destruct (o_res sub1); use_ih IHi.
+      + (* run 1 reads the file, run 2 hits *)
+        destruct (C2 _ _ F2) as [A2 Z2]. rewrite A2, Z2 in HG.
+        destruct (load_wc fuel fs L q (f_dirs cf2) (mkLS v c1)) as [sub1|] eqn:E1; [|discriminate].
+        destruct (SUB cf2 sub1 E1) as (sub2 & E2 & (R1 & R2 & R3 & R4) & K1 & K2). rewrite E2. rewrite <- R1, <- R2, <- R3.
+        destruct (o_st sub1) as [v1 k1] eqn:S1; destruct (o_st sub2) as [v2 k2] eqn:S2; cbn [visited cache] in *. subst v2.
+        destruct (o_res sub1); use_ih IHi.
+      + (* both read the file *)
+        destruct (flookup q fs) as [f|] eqn:Ff; [|use_ih IHi].
+        destruct (max_size L <? f_size f) eqn:Zf; [use_ih IHi|].
+        destruct (load_wc fuel fs L q (f_dirs f) (mkLS v c1)) as [sub1|] eqn:E1; [|discriminate].
+        destruct (SUB f sub1 E1) as (sub2 & E2 & (R1 & R2 & R3 & R4) & K1 & K2). rewrite E2. rewrite <- R1, <- R2, <- R3.
+        destruct (o_st sub1) as [v1 k1] eqn:S1; destruct (o_st sub2) as [v2 k2] eqn:S2; cbn [visited cache] in *. subst v2.
+        destruct (o_res sub1); use_ih IHi. }
+  exact (G _ _ _ _ c1 c2 _ [] _ o1 C1 C2 H).
+Qed.
 
 (* files of the file system not yet visited *)
 Definition unv (fs : fsys) (vis : list N) : nat := length (filter (fun kv => negb (memN (fst kv) vis)) fs).
@@ -48,44 +127,46 @@ Qed.
 Lemma unv_le_length fs vis : (unv fs vis <= length fs)%nat.
 Proof. unfold unv. induction fs as [|x r IH]; [cbn; lia|]. cbn [filter]. destruct (negb _); cbn [length]; lia. Qed.
 
-(* the traversal never runs out of fuel, and only adds to the visited set *)
-Lemma load_wc_total fs L : forall fuel p dirs st, (unv fs (p :: visited st) < fuel)%nat ->
-  exists out, load_wc fuel fs L p dirs st = Some out /\ incl (visited st) (visited (o_st out)).
+(* the traversal never runs out of fuel, and only adds to the visited set (coherent cache: every
+   cached file is a file of the file system, so following its includes marks a new file too) *)
+Lemma load_wc_total fs L : forall fuel p dirs st, coherent fs L (cache st) -> (unv fs (p :: visited st) < fuel)%nat ->
+  exists out, load_wc fuel fs L p dirs st = Some out /\ incl (visited st) (visited (o_st out)) /\ coherent fs L (cache (o_st out)).
 Proof.
-  induction fuel as [|fuel IH]; intros p dirs st H; [lia|].
+  induction fuel as [|fuel IH]; intros p dirs st C H; [lia|].
   cbn [load_wc]. destruct (max_depth L <=? N.of_nat (length (visited st))).
-  { eexists. split; [reflexivity|]. cbn [o_st]. apply incl_refl. }
+  { eexists. split; [reflexivity|]. cbn [o_st]. split; [apply incl_refl|exact C]. }
   set (st0 := mkLS (p :: visited st) (cache st)).
   assert (B0 : (unv fs (visited st0) <= fuel)%nat) by (cbn [st0 visited]; lia).
   assert (I0 : incl (visited st) (visited st0)) by (cbn [st0 visited]; apply incl_tl, incl_refl).
+  assert (C0 : coherent fs L (cache st0)) by exact C.
   match goal with |- context [?g (dir_items fs dirs) (mkRes [] []) [] st0 [] []] => set (GO := g) end.
-  assert (G : forall items res errs st1 hits seen, (unv fs (visited st1) <= fuel)%nat -> incl (visited st) (visited st1) ->
-              exists out, GO items res errs st1 hits seen = Some out /\ incl (visited st) (visited (o_st out))).
-  { induction items as [|[line oq] rest IHi]; intros res errs st1 hits seen B I.
-    - eexists. split; [reflexivity|]. exact I.
+  assert (G : forall items res errs st1 hits seen, coherent fs L (cache st1) -> (unv fs (visited st1) <= fuel)%nat -> incl (visited st) (visited st1) ->
+              exists out, GO items res errs st1 hits seen = Some out /\ incl (visited st) (visited (o_st out)) /\ coherent fs L (cache (o_st out))).
+  { induction items as [|[line oq] rest IHi]; intros res errs st1 hits seen C1 B I.
+    - eexists. split; [reflexivity|]. split; assumption.
     - unfold GO. cbn beta iota. fold GO.
       destruct oq as [q|]; [|apply IHi; assumption].
       destruct (memN q (visited st1)) eqn:Mq; [apply IHi; assumption|].
-      destruct (flookup q (cache st1)) as [cf|]; [apply IHi; assumption|].
-      destruct (flookup q fs) as [f|] eqn:Fq; [|apply IHi; assumption].
-      destruct (max_size L <? f_size f); [apply IHi; assumption|].
-      pose proof (unv_visit fs (visited st1) q f Fq Mq) as Dec.
-      destruct (IH q (f_dirs f) st1 ltac:(lia)) as (sub & Es & Is). rewrite Es.
-      destruct (o_res sub) as [sr|].
-      + apply IHi.
-        * cbn [visited]. pose proof (unv_mono fs _ _ Is). lia.
-        * cbn [visited]. eapply incl_tran; [exact I|exact Is].
-      + apply IHi.
-        * pose proof (unv_mono fs _ _ Is). lia.
-        * eapply incl_tran; [exact I|exact Is]. }
+      assert (SUB : forall f, flookup q fs = Some f ->
+                exists sub, load_wc fuel fs L q (f_dirs f) st1 = Some sub /\ incl (visited st1) (visited (o_st sub)) /\ coherent fs L (cache (o_st sub))).
+      { intros f Fq. pose proof (unv_visit fs (visited st1) q f Fq Mq) as Dec. apply IH; [exact C1|lia]. }
+      destruct (flookup q (cache st1)) as [cf|] eqn:Fc.
+      + destruct (C1 _ _ Fc) as [Fq _]. destruct (SUB cf Fq) as (sub & Es & Is & Cs). rewrite Es.
+        destruct (o_res sub); apply IHi; try exact Cs; try (pose proof (unv_mono fs _ _ Is); lia); eapply incl_tran; eauto.
+      + destruct (flookup q fs) as [f|] eqn:Fq; [|apply IHi; assumption].
+        destruct (max_size L <? f_size f) eqn:Zf; [apply IHi; assumption|].
+        destruct (SUB f eq_refl) as (sub & Es & Is & Cs). rewrite Es.
+        destruct (o_res sub) as [sr|].
+        * apply IHi; cbn [visited cache]; [apply coherent_cons; assumption|pose proof (unv_mono fs _ _ Is); lia|eapply incl_tran; eauto].
+        * apply IHi; [exact Cs|pose proof (unv_mono fs _ _ Is); lia|eapply incl_tran; eauto]. }
   apply G; assumption.
 Qed.
 
-Theorem load_root_total fs L c root ov : load_root fs L c root ov <> None.
+Theorem load_root_total fs L c root ov : coherent fs L c -> load_root fs L c root ov <> None.
 Proof.
-  unfold load_root. destruct (match ov with Some f => Some f | None => flookup root fs end) as [f|]; [|discriminate].
+  intro C. unfold load_root. destruct (match ov with Some f => Some f | None => flookup root fs end) as [f|]; [|discriminate].
   destruct (max_size L <? f_size f); [discriminate|].
-  destruct (load_wc_total fs L (fuel_for fs) root (f_dirs f) (mkLS [] c)) as (out & E & _).
+  destruct (load_wc_total fs L (fuel_for fs) root (f_dirs f) (mkLS [] c) C) as (out & E & _).
   { unfold fuel_for. pose proof (unv_le_length fs [root]). cbn [visited]. lia. }
   rewrite E. discriminate.
 Qed.
@@ -96,48 +177,63 @@ Inductive reach (fs : fsys) : list directive -> N -> Prop :=
 | reach_via dirs q f x line : In (line, Some q) (dir_items fs dirs) -> flookup q fs = Some f ->
     reach fs (f_dirs f) x -> reach fs dirs x.
 
-(* soundness: whatever the cache and the limits, every file in the resolved order is reachable
+(* soundness: whatever (coherent) cache and limits, every file in the resolved order is reachable
    through include directives from the journal being loaded *)
-Lemma load_wc_sound fs L : forall fuel p dirs st out r,
+Lemma load_wc_sound fs L : forall fuel p dirs st out r, coherent fs L (cache st) ->
   load_wc fuel fs L p dirs st = Some out -> o_res out = Some r -> forall x, In x (r_order r) -> reach fs dirs x.
 Proof.
-  induction fuel as [|fuel IH]; intros p dirs st out r H; [discriminate|].
+  induction fuel as [|fuel IH]; intros p dirs st out r C H; [discriminate|].
   cbn [load_wc] in H. destruct (max_depth L <=? N.of_nat (length (visited st))).
   { inversion H; subst. cbn [o_res]. discriminate. }
   set (st0 := mkLS (p :: visited st) (cache st)) in H.
   match type of H with context [?g (dir_items fs dirs) (mkRes [] []) [] st0 [] []] => set (GO := g) in H end.
-  assert (G : forall items res errs st1 hits seen out r,
+  assert (G : forall items res errs st1 hits seen out r, coherent fs L (cache st1) ->
               incl items (dir_items fs dirs) -> (forall x, In x (r_order res) -> reach fs dirs x) ->
               GO items res errs st1 hits seen = Some out -> o_res out = Some r ->
               forall x, In x (r_order r) -> reach fs dirs x).
-  { clear H. induction items as [|[line oq] rest IHi]; intros res errs st1 hits seen o r0 Inc Hres HG Hr.
+  { clear H. induction items as [|[line oq] rest IHi]; intros res errs st1 hits seen o r0 C1 Inc Hres HG Hr.
     - inversion HG; subst. cbn [o_res] in Hr. inversion Hr; subst. exact Hres.
     - assert (Inc' : incl rest (dir_items fs dirs)) by (intros y Iy; apply Inc; right; exact Iy).
       assert (Here : forall q, oq = Some q -> In (line, Some q) (dir_items fs dirs)) by (intros q E; subst; apply Inc; left; reflexivity).
       unfold GO in HG. cbn beta iota in HG. fold GO in HG.
       destruct oq as [q|]; [|eapply IHi; eauto].
       destruct (memN q (visited st1)); [eapply IHi; eauto|].
-      destruct (flookup q (cache st1)) as [cf|].
-      { eapply IHi; [exact Inc'| |exact HG|exact Hr]. cbn [r_order]. intros x Ix. apply in_app_or in Ix as [Ix|[E|[]]]; [auto|].
-        subst x. eapply reach_direct. apply Here. reflexivity. }
-      destruct (flookup q fs) as [f|] eqn:Fq; [|eapply IHi; eauto].
-      destruct (max_size L <? f_size f); [eapply IHi; eauto|].
-      destruct (load_wc fuel fs L q (f_dirs f) st1) as [sub|] eqn:Es; [|discriminate].
-      destruct (o_res sub) as [sr|] eqn:Er; [|eapply IHi; eauto].
-      eapply IHi; [exact Inc'| |exact HG|exact Hr]. cbn [r_order]. intros x Ix.
-      apply in_app_or in Ix as [Ix|[E|Ix]]; [auto| |].
-      + subst x. eapply reach_direct. apply Here. reflexivity.
-      + eapply reach_via; [apply Here; reflexivity|exact Fq|]. eapply IH; eauto. }
-  intros Hr x Ix. eapply (G _ _ _ _ _ _ out r (incl_refl _)); [|exact H|exact Hr|exact Ix]. intros y [].
+      assert (STEP : forall f sub, flookup q fs = Some f -> load_wc fuel fs L q (f_dirs f) st1 = Some sub ->
+                (forall sr, o_res sub = Some sr -> forall x, In x (r_order res ++ q :: r_order sr) -> reach fs dirs x) /\
+                coherent fs L (cache (o_st sub))).
+      { intros f sub Fq Es. split.
+        - intros sr Er x Ix. apply in_app_or in Ix as [Ix|[E|Ix]]; [auto| |].
+          + subst x. eapply reach_direct. apply Here. reflexivity.
+          + eapply reach_via; [apply Here; reflexivity|exact Fq|]. eapply (IH q (f_dirs f) st1 sub sr C1 Es Er). exact Ix.
+        - destruct st1 as [v1 k1]. cbn [cache] in C1.
+          destruct (load_wc_cache_indep fs L _ _ _ _ k1 k1 sub C1 C1 Es) as (_ & _ & _ & K & _). exact K. }
+      destruct (flookup q (cache st1)) as [cf|] eqn:Fc.
+      + destruct (C1 _ _ Fc) as [Fq _].
+        destruct (load_wc fuel fs L q (f_dirs cf) st1) as [sub|] eqn:Es; [|discriminate].
+        destruct (STEP cf sub Fq Es) as [R K].
+        destruct (o_res sub) as [sr|] eqn:Er.
+        * eapply (IHi _ _ _ _ _ o r0 K Inc'); [|exact HG|exact Hr]. cbn [r_order]. apply (R sr eq_refl).
+        * eapply (IHi _ _ _ _ _ o r0 K Inc' Hres); [exact HG|exact Hr].
+      + destruct (flookup q fs) as [f|] eqn:Fq; [|eapply IHi; eauto].
+        destruct (max_size L <? f_size f) eqn:Zf; [eapply IHi; eauto|].
+        destruct (load_wc fuel fs L q (f_dirs f) st1) as [sub|] eqn:Es; [|discriminate].
+        destruct (STEP f sub eq_refl Es) as [R K].
+        destruct (o_res sub) as [sr|] eqn:Er.
+        * eapply (IHi _ _ _ _ _ o r0); [| exact Inc'| |exact HG|exact Hr].
+          -- cbn [cache]. apply coherent_cons; assumption.
+          -- cbn [r_order]. apply (R sr eq_refl).
+        * eapply (IHi _ _ _ _ _ o r0 K Inc' Hres); [exact HG|exact Hr]. }
+  intros Hr x Ix. assert (C0 : coherent fs L (cache st0)) by exact C.
+  eapply (G _ _ _ st0 _ _ out r C0 (incl_refl _)); [|exact H|exact Hr|exact Ix]. intros y [].
 Qed.
 
-Theorem load_root_sound fs L c root ov out r f :
+Theorem load_root_sound fs L c root ov out r f : coherent fs L c ->
   match ov with Some g => Some g | None => flookup root fs end = Some f ->
   load_root fs L c root ov = Some out -> o_res out = Some r ->
   forall x, In x (r_order r) -> reach fs (f_dirs f) x.
 Proof.
-  intros Ef H Hr x Ix. unfold load_root in H. rewrite Ef in H.
+  intros C Ef H Hr x Ix. unfold load_root in H. rewrite Ef in H.
   destruct (max_size L <? f_size f); [inversion H; subst; discriminate|].
-  eapply load_wc_sound; eauto.
+  eapply (load_wc_sound fs L _ root (f_dirs f) (mkLS [] c) out r); [exact C|exact H|exact Hr|exact Ix].
 Qed.
 
